@@ -297,6 +297,53 @@ func genC06(o *out, r *Rng) {
 		o.add(x)
 		o.add(E2E(t.Canon(), Opts{Opt: r.P(50), Sw: defSw}))
 	}
+	// several inline map scripts in one mapscripts statement, each introducing inline texts and moves() of its own (the
+	// numbering is per owning inline script although all of them are hoisted after the one top-level statement)
+	for i := 0; i < scale(150, 3000); i++ {
+		var b strings.Builder
+		k := 0
+		body := func() string {
+			var x strings.Builder
+			for j := 1 + r.N(3); j > 0; j-- {
+				k++
+				switch r.N(4) {
+				case 0:
+					fmt.Fprintf(&x, " applymovement(%d, moves(walk_up * %d face_left))", k, 1+k%5)
+				case 1:
+					fmt.Fprintf(&x, " msgbox(\"text %d\")", k%4)
+				case 2:
+					fmt.Fprintf(&x, " applymovement(1, moves(walk_down * %d)) msgbox(\"t%d\")", 1+k%3, k)
+				default:
+					fmt.Fprintf(&x, " if (flag(F%d)) { applymovement(2, moves(face_up walk_left * %d)) }", k, 1+k%4)
+				}
+			}
+			return x.String()
+		}
+		if r.P(40) {
+			fmt.Fprintf(&b, "script Before {%s }\n", body())
+		}
+		b.WriteString("mapscripts Mp_MapScripts {\n")
+		types := []string{"MAP_SCRIPT_ON_LOAD", "MAP_SCRIPT_ON_TRANSITION", "MAP_SCRIPT_ON_RESUME", "MAP_SCRIPT_ON_RETURN_TO_FIELD"}
+		for j := 0; j < 1+r.N(3); j++ {
+			fmt.Fprintf(&b, " %s {%s }\n", types[j], body())
+		}
+		if r.P(70) {
+			b.WriteString(" MAP_SCRIPT_ON_FRAME_TABLE [\n")
+			for j := 0; j < 1+r.N(3); j++ {
+				if r.P(70) {
+					fmt.Fprintf(&b, "  VAR_%d, %d {%s }\n", j, j, body())
+				} else {
+					fmt.Fprintf(&b, "  VAR_%d, %d: Ext%d\n", j, j, j)
+				}
+			}
+			b.WriteString(" ]\n")
+		}
+		b.WriteString("}\n")
+		if r.P(40) {
+			fmt.Fprintf(&b, "script After {%s }\n", body())
+		}
+		o.e2eBoth(b.String(), Opts{Sw: defSw})
+	}
 	// clashes with user-defined names
 	for _, s := range []string{
 		"script A { msgbox(\"x\") }\ntext A_Text_0 { \"y\" }",
